@@ -10,6 +10,12 @@
     c18 replay <l|j|r> <cp> <seq> <mv> <fields> <nodes> <hole> <fb> <cmd>…
                                                      → none | sent node=<n> slot=<s> <cmd>…
 
+    c18 iter <fb,fb,…> <order> <cmd>                 → keys:<hexlist> | none | err   (resolveBisyncCommandKeys over the nodes in that order)
+    c18 nodes <l|j|r> <cp> <seq> <mv> <fields> <nodes> <fb,fb,…> <order> <picks> <cmd>…
+                                                     → none | sent node=<n> slot=<s> <cmd>… ; <applied|aborted> flag=<bool>   (node i answers COMMAND GETKEYS like fb i and checks the block it receives by that answer;
+                                                       the builder visits the nodes in <order>, the client's k-th query hits node <picks>[k])
+    c18 flag <nodes> <cmd>…                          → <ok|skip|err-…>… ; enable=<bool> node=<n|->   (Put sequence with the transaction flag)
+
   fb (the COMMAND GETKEYS fall-back for commands the static tables do not
   resolve): none | err | first (key = first argument) | all (every argument) |
   empty (an empty reply); `build` also takes okempty (a custom resolver that
@@ -18,6 +24,7 @@
   `slot % 1000 < hole` have no owner.
 -/
 import GunYu.Model.BisyncUnit
+import GunYu.Model.ClusterNodes
 namespace GunYu.Drive.C18
 open GunYu GunYu.BisyncUnit
 
@@ -41,6 +48,7 @@ def fb? (s : String) : Option (Bytes → List Bytes → Fb) :=
   else if s == "all" then some (fun _ args => .keys args)
   else if s == "empty" then some (fun _ _ => .keys [])
   else if s == "okempty" then some (fun _ _ => .none)
+  else if s == "garbage" then some (fun _ _ => .err)
   else none
 
 def errStr : BuildErr → String
@@ -69,6 +77,25 @@ def putTrace (cv : ClusterView) : Txn → List Cmd → List String → List Stri
     | .ok t' =>
       let tok := if t'.cmds.length == t.cmds.length then "skip" else "ok"
       putTrace cv t' cs (tok :: acc)
+
+def natList? (s : String) : Option (List Nat) :=
+  if s == "." then some [] else (s.splitOn ",").mapM String.toNat?
+
+/-- node i answers like the i-th fall-back behaviour ("garbage" = an undecodable reply = an error) -/
+def ansOf (fs : List (Bytes → List Bytes → Fb)) : NodeAns := fun n cmd args =>
+  match fs[n]? with
+  | some f => f cmd args
+  | none => .none
+
+/-- Put trace with the cluster's transaction flag -/
+def putTraceF (cv : ClusterView) : Txn → CFlag → List Cmd → List String → List String × (Txn × CFlag)
+  | t, f, [], acc => (acc.reverse, (t, f))
+  | t, f, c :: cs, acc =>
+    match txnPutF cv (some 0) t f c with
+    | (.error e, f') => ((putErrStr e :: acc).reverse, (t, f'))
+    | (.ok t', f') =>
+      let tok := if t'.cmds.length == t.cmds.length then "skip" else "ok"
+      putTraceF cv t' f' cs (tok :: acc)
 
 def optNat : Option Nat → String
   | none => "-"
@@ -132,6 +159,38 @@ def handle : List String → Option (List String)
         | .ok t =>
           some [s!"sent node={optNat t.node} slot={optNat t.slot} " ++ " ".intercalate (t.cmds.map cmdStr)]
     | _, _, _, _, _, _, _, _, _ => some ["bad-op"]
+  | ["c18", "iter", fbs, order, c] =>
+    match (fbs.splitOn ",").mapM fb?, natList? order, cmd? c with
+    | some fs, some ord, some cmd =>
+      match builderFb (ansOf fs) ord cmd.name cmd.args with
+      | .keys ks => some ["keys:" ++ hexListStr ks]
+      | .none => some ["none"]
+      | .err => some ["err"]
+    | _, _, _ => some ["bad-op"]
+  | "c18" :: "nodes" :: k :: cp :: seq :: mv :: fields :: nodes :: fbs :: order :: picks :: cmds =>
+    match kind? k, Hex.decode cp, seq.toNat?, Hex.decode mv, hexList? fields, nodes.toNat?,
+        (fbs.splitOn ",").mapM fb?, natList? order, natList? picks, cmds.mapM cmd? with
+    | some k, some cp, some seq, some mv, some fields, some n, some fs, some ord, some pk, some cs =>
+      let ans := ansOf fs
+      let cv := view n 0 (fun _ _ => .none)
+      -- the definitions the theorems are about: replayUnitN (what goes on the wire), nodeApplies (the receiving node)
+      match replayUnitN ans ord pk cv.owner (some 0) cp k ⟨mv, fields, seq⟩ cs, buildUnit clusterMode (resolverWith (builderFb ans ord)) cs with
+      | some w, .ok u =>
+        let body := (w.drop 1).dropLast
+        let node := cv.owner u.slot
+        let applied := match node with | some nd => nodeApplies ans cv.owner nd body | none => []
+        let verdict := if applied.isEmpty && !body.isEmpty then "aborted" else "applied"
+        let flag := (txnPutAllF cv (some 0) {} {} body).2.enable
+        some [s!"sent node={optNat node} slot={u.slot} " ++ " ".intercalate (body.map cmdStr) ++ s!" ; {verdict} flag={flag}"]
+      | _, _ => some ["none"]
+    | _, _, _, _, _, _, _, _, _, _ => some ["bad-op"]
+  | "c18" :: "flag" :: nodes :: cmds =>
+    match nodes.toNat?, cmds.mapM cmd? with
+    | some n, some cs =>
+      let cv := view n 0 (fun _ _ => .none)
+      let (toks, st) := putTraceF cv {} {} cs []
+      some [" ".intercalate toks ++ s!" ; enable={st.2.enable} node={optNat st.2.node}"]
+    | _, _ => some ["bad-op"]
   | _ => none
 
 end GunYu.Drive.C18
